@@ -107,6 +107,9 @@ def handle : List String → Option String
   | ["c19_valid", y, m, d] => some (match parseInt? y, parseInt? m, parseInt? d with
       | some y, some m, some d => toString (validDate y m d) | _, _, _ => "bad-op")
   | ["c19_tables"] => some tables
+  | ["c19_select", t, l] => some (match selectLoader t (if l = "-" then none else some l) with
+      | .valueError => "ValueError" | .keyError => "KeyError"
+      | .use c r => s!"{c}:{r.getD "None"}")
   | ["c19_dispatch", t] => some (match dispatch t with
       | some (c, l) => s!"{c}:{l.getD "None"}" | none => "ValueError")
   | _ => none
